@@ -147,7 +147,7 @@ class AAgg(Stub):
         return r
 
     def desc(self):
-        return {"column": getattr(self, "name", self.col.col), "from": self.col.frame.origin, "from_ops": list(self.col.frame.ops), "rule": self.rule, "reduction": self.kind}
+        return {"column": getattr(self, "name", self.col.col), "source_column": self.col.col, "from": self.col.frame.origin, "from_ops": list(self.col.frame.ops), "rule": self.rule, "reduction": self.kind}
 
 
 class AConcat(Stub):
